@@ -377,6 +377,20 @@ class MTL:
         self.task_leaves: list = []     # per task, leaves (requiring grad) its loss uses around the features
         self.losses: list = []
 
+    def unused_features(self):
+        """features no loss depends on (mtl_backward still differentiates them, with zero cotangents)"""
+        P = self.P
+        used = set()
+        for l in self.losses:
+            stack = [l]
+            while stack:
+                n = stack.pop()
+                if n in used:
+                    continue
+                used.add(n)
+                stack.extend(P.parents(n))
+        return [f for f in self.features if f not in used]
+
     def nested_features(self):
         """some feature is computed from another feature: then a task's backward pass traverses trunk
         nodes, and retain_graph=False makes the later sweeps fail (outside C13's hypothesis)"""
